@@ -27,6 +27,7 @@ pub mod c25;
 pub mod c26;
 pub mod c27;
 pub mod c28;
+pub mod c29;
 pub mod c30;
 pub mod c31;
 pub mod c32;
@@ -72,6 +73,7 @@ pub fn all() -> Vec<Box<dyn Prop>> {
         Box::new(c26::C26),
         Box::new(c27::C27),
         Box::new(c28::C28),
+        Box::new(c29::C29),
         Box::new(c30::C30),
         Box::new(c31::C31),
         Box::new(c32::C32),
